@@ -149,6 +149,7 @@ def run(ctx: common.Run):
         shapes = {'w': (2, 1, nq, 1)}
         check_views(ctx, cirq, result_mod, recs, shapes, rng)
     check_sampler(ctx, cirq)
+    check_sampler_shapes(ctx, cirq)
     check_processor_sampler(ctx, cirq)
 
 
@@ -360,6 +361,39 @@ def check_sampler(ctx, cirq):
                                 'theorem_or_correspondence': 'sampler entry points (T2) + C10 sweep order'})
 
 
+
+
+def check_sampler_shapes(ctx, cirq):
+    """the samplers of the library report, for any number of repetitions (0 included), every key with shape
+    (repetitions, instances, qubits); sample() has one row per repetition"""
+    rng = ctx.substream('sampler-shapes')
+    qs = cirq.LineQubit.range(3)
+    samplers = {'Simulator': cirq.Simulator, 'DensityMatrixSimulator': cirq.DensityMatrixSimulator, 'CliffordSimulator': cirq.CliffordSimulator,
+                'ClassicalStateSimulator': cirq.ClassicalStateSimulator, 'ZerosSampler': cirq.ZerosSampler}
+    for _ in range(6 if ctx.tier == 'quick' else 60):
+        ops, shape = [], {}
+        for j in range(rng.randint(1, 4)):
+            key = rng.choice(['m', 'n', 'k'])
+            width = shape[key][1] if key in shape else rng.randint(1, 3)
+            ops.append(cirq.X(rng.choice(qs)))
+            ops.append(cirq.measure(*rng.sample(qs, width), key=key))
+            shape[key] = (shape.get(key, (0, width))[0] + 1, width)
+        circuit = cirq.Circuit(ops)
+        for name, mk in samplers.items():
+            for reps in (0, 1, 3):
+                ctx.count('view', 'sampler-shapes')
+                ctx.case(['sampler-shapes', name, reps, repr(circuit)], True)
+                try:
+                    res = mk().run(circuit, repetitions=reps)
+                except (ValueError, TypeError, NotImplementedError) as e:
+                    ctx.count('sampler_shape_error', f'{name}:{type(e).__name__}')
+                    continue
+                got = {k: tuple(v.shape) for k, v in res.records.items()}
+                want = {k: (reps, inst, w) for k, (inst, w) in shape.items()}
+                if got != want or res.repetitions != reps:
+                    ctx.report_witness(f'sampler:shapes:{name}', f'{name}.run(repetitions={reps}) does not report every key with shape (repetitions, instances, qubits)',
+                                       {'lines': [{'circuit': repr(circuit), 'repetitions': reps}], 'impl_out': [got, res.repetitions], 'spec_out': [want, reps], 'theorem_or_correspondence': 'record shapes'})
+                    break
 
 
 def check_processor_sampler(ctx, cirq):
